@@ -324,7 +324,7 @@ Fixpoint sd_loop (fuel : nat) (n : Z) (L C H den : Z) (incl : bool) (dp : Z)
 
 (* Go's decimalSlice {d, nd, dp} for FormatFloat(f, fmt, -1, 64).
    Zero / Inf / NaN give ([], 0). *)
-Definition shortest_digits (f : f64) : list Z * Z :=
+Definition shortest_digits_ref (f : f64) : list Z * Z :=
   match f with
   | S754_finite _ m e =>
       let mz := Zpos m in
@@ -338,6 +338,89 @@ Definition shortest_digits (f : f64) : list Z * Z :=
       let C := C0 * sc in
       let dp := dec_point C den in
       sd_loop 20 1 (L0 * sc) C (H0 * sc) den (Z.even mz) dp
+  | _ => ([], 0)
+  end.
+
+(* The same function with a single big division (the reference above does one
+   per candidate length, which is slow for extreme exponents).  With an
+   estimate dp' of the decimal exponent that is off by at most one, let
+   k = dp' - 18, D = 10^k (scaled): C = T + rem/D where T has J = 17..19 digits,
+   which also gives the true dp.  The interval ends are C -/+ a small multiple
+   of delta; only their floor/ceiling in units of D are needed because every
+   candidate is an integer number of units. *)
+
+(* floor (x / d) for d > 0; linear search when the quotient is tiny *)
+Fixpoint sfd_loop (fuel : nat) (x d q : Z) : Z :=
+  match fuel with
+  | O => x / d
+  | S f => if x <? (q + 1) * d then q else sfd_loop f x d (q + 1)
+  end.
+Definition small_fdiv (x d : Z) : Z :=
+  if (- (64 * d) <=? x) && (x <? 64 * d) then sfd_loop 128 x d (-64) else x / d.
+
+Fixpoint sdJ_loop (fuel : nat) (n J : Z) (T : Z) (rem_zero : bool) (cmp0 : comparison)
+         (Lf Lc Hf Hc : Z) (incl : bool) (dp : Z) : list Z * Z :=
+  match fuel with
+  | O => (strip_trailing_zeros (dec_digits_list T), dp)
+  | S fuel' =>
+      let j := J - n in
+      let P := 10 ^ j in
+      let Tn := T / P in
+      let down := Tn * P in
+      let up := (Tn + 1) * P in
+      let okdown := if incl then Lc <=? down else Lf <? down in
+      let okup := if incl then up <=? Hf else up <? Hc in
+      let res :=
+        if okdown && okup then
+          let c :=
+            if j =? 0 then cmp0 else
+            match Z.compare (T - down) (P / 2) with
+            | Eq => if rem_zero then Eq else Gt
+            | c => c
+            end in
+          Some match c with
+               | Lt => Tn
+               | Gt => Tn + 1
+               | Eq => if Z.even Tn then Tn else Tn + 1
+               end
+        else if okdown then Some Tn
+        else if okup then Some (Tn + 1)
+        else None in
+      match res with
+      | Some R =>
+          let ds := dec_digits_list R in
+          (strip_trailing_zeros ds, dp + (Z.of_nat (List.length ds) - n))
+      | None => sdJ_loop fuel' (n + 1) J T rem_zero cmp0 Lf Lc Hf Hc incl dp
+      end
+  end.
+
+Definition shortest_digits (f : f64) : list Z * Z :=
+  match f with
+  | S754_finite _ m e =>
+      let mz := Zpos m in
+      let border := (mz =? 4503599627370496) && negb (e =? -1074) in
+      let E := e - 2 in
+      let sc := if 0 <=? E then 2 ^ E else 1 in
+      let den := if 0 <=? E then 1 else 2 ^ (- E) in
+      let C := 4 * mz * sc in
+      let dp' := ((Z.log2 C - Z.log2 den) * 30103) / 100000 + 1 in
+      let k := dp' - 18 in
+      let mul := if 0 <=? k then 1 else 10 ^ (- k) in
+      let D := if 0 <=? k then den * 10 ^ k else den in
+      let delta := sc * mul in
+      let '(T, rem) := Z.div_eucl (C * mul) D in
+      let J := if T <? 100000000000000000 then 17
+               else if T <? 1000000000000000000 then 18 else 19 in
+      let dp := dp' + (J - 18) in
+      let xl := rem - (if border then delta else 2 * delta) in
+      let xh := rem + 2 * delta in
+      let ql := small_fdiv xl D in
+      let qh := small_fdiv xh D in
+      let Lf := T + ql in
+      let Lc := if xl - ql * D =? 0 then Lf else Lf + 1 in
+      let Hf := T + qh in
+      let Hc := if xh - qh * D =? 0 then Hf else Hf + 1 in
+      sdJ_loop 17 1 J T (rem =? 0) (Z.compare (2 * rem) D) Lf Lc Hf Hc (Z.even mz) dp
   | _ => ([], 0)
   end.
 
